@@ -913,6 +913,7 @@ def run_interpreters(ctx, base, grid, dims, loggers, modules):
         p = subprocess.Popen([sys.executable] + it["flags"] + [driver], stdin=subprocess.PIPE, stdout=subprocess.PIPE,
                              stderr=subprocess.PIPE, text=True, env=env)
         procs.append((it, p))
+    plain_bad = set()     # (request, route) that fail in the plain interpreter already: the in-process setting, not the switch
     for it, p in procs:
         try:
             out, err = p.communicate(json.dumps(reqs), timeout=900)
@@ -944,17 +945,25 @@ def run_interpreters(ctx, base, grid, dims, loggers, modules):
                 g = got.get(route, {})
                 replay = dict(interpreter=it, request=req, route=route, got=dict(g, rows=g.get("rows", [])[:4]),
                               reference_rows=hexed(ref_rows)[:4])
+                if it["label"] != "plain" and (req["idx"], route) in plain_bad:
+                    continue
+                if it["label"] == "plain":
+                    where = ("ambient-" + "+".join(sorted(DIM_NAMES[k] for k in req["setting"]))) if req["setting"] else "neutral-setting"
+                    if "raised" in g or g.get("names") != ref_names or [tuple(r) for r in g.get("rows", [])] != hexed(ref_rows):
+                        plain_bad.add((req["idx"], route))
+                else:
+                    where = "ambient-interpreter"
                 if "raised" in g:
                     wa = (req["setting"].get("warnings") or {}).get("action") == "error" or any("error" in f for f in it["flags"])
                     if (g.get("warning") and wa) or (g.get("fpe") and (req["setting"].get("np") or {}).get("err") == "raise"):
                         ctx.bump("refused:interpreter:" + g["raised"])
                         continue
-                    ctx.fail("c16-raises:%s:ambient-interpreter" % g["raised"],
+                    ctx.fail("c16-raises:%s:%s" % (g["raised"], where),
                              "route %s in an interpreter started as %s under the setting %s raised %s: %s"
                              % (route, it["label"], label, g["raised"], g.get("msg")), replay, case=cid + (route,))
                 elif g.get("names") != ref_names or [tuple(r) for r in g.get("rows", [])] != hexed(ref_rows):
                     sig = "c16-size" if len(g.get("rows", [])) != req["n"] else "c16-not-reproducible"
-                    ctx.fail(sig + ":ambient-interpreter", "route %s in an interpreter started as %s under the setting %s: the "
+                    ctx.fail(sig + ":" + where, "route %s in an interpreter started as %s under the setting %s: the "
                              "records are not those of the reference stream of the seed" % (route, it["label"], label),
                              replay, case=cid + (route,))
         ctx.bump("ambient_interpreter:" + it["label"])
